@@ -1,9 +1,137 @@
 import Olla.Driver.Util
+import Olla.Model.Routing
+import Olla.Spec.C09
 
 namespace Olla.Driver.C09
-open Lean Olla.Driver
+open Lean Olla.Driver Olla.Gen.Routing Olla.Model.Routing Olla.Spec.C09
 
-/-- placeholder until the C09 driver is written -/
-def main : IO Unit := pure ()
+def parseOutcome (j : Json) : Refresh :=
+  match jstr (jget j "kind") with
+  | "refresh-fail" => .refreshFailed
+  | "healthy-fail" => .getHealthyFailed
+  | _ => .ok (jnatList (jget j "updated"))
+
+def parseObs (impl : Json) : Obs :=
+  { eps := (jintList (jget impl "eps")).map Int.toNat, strategy := jstr (jget impl "strategy"), action := jstr (jget impl "action"),
+    reason := jstr (jget impl "reason"), status := jnat (jget impl "status") }
+
+def parseListings (j : Json) : List (List Mdl) :=
+  (jarr j).map (fun l => (jarr l).map (fun m => { name := jstr (jget m "name"), digest := jstr (jget m "digest") }))
+
+def ostr (j : Json) : Option String := match j with | .str s => some s | _ => none
+
+def parseHttpObs (impl : Json) : HttpObs :=
+  let bk := jint (jget impl "backend")
+  { status := jnat (jget impl "status")
+    backend := (if bk < 0 then none else some bk.toNat)
+    hStrategy := ostr (jget impl "h_strategy")
+    hDecision := ostr (jget impl "h_decision")
+    hReason := ostr (jget impl "h_reason") }
+
+def obsJson (o : Obs) (err : Bool) : Json :=
+  Json.mkObj [("eps", toJson o.eps), ("strategy", toJson o.strategy), ("action", toJson o.action), ("reason", toJson o.reason),
+    ("status", toJson o.status), ("err", toJson err)]
+
+/-- stable signature of the known defect classes of the pinned tree, else the clause name -/
+def refineRoute (sig typ : String) (oc : Refresh) (listers : List Ep) (o : Obs) : String :=
+  if factoryName typ == strategyDiscovery && oc == .getHealthyFailed &&
+      (sig == "forwarded-to-unlisted-or-unhealthy" || sig == "unserved-model-not-rejected") then
+    "discovery-healthy-error-ignores-fallback"
+  else if factoryName typ == strategyDiscovery && sig == "reject-status-wrong" && listers.isEmpty && o.status == 503 && o.eps.isEmpty then
+    "discovery-503-for-unlisted-model"
+  else sig
+
+def branchOf (typ fb : String) (o : Obs) : String :=
+  s!"{factoryName typ}/{fb}/{o.action}/{o.reason}"
+
+def handle (j : Json) : IO Unit := do
+  let case := jnat (jget j "case")
+  let kind := jstr (jget j "kind")
+  let impl := jget j "impl"
+  let typ := jstr (jget j "typ")
+  let fb := jstr (jget j "fb")
+  let rom := jbool (jget j "rom")
+  let healthy := jnatList (jget j "healthy")
+  match kind with
+  | "route" =>
+    if (jfield? impl "factory_error").isSome || (jfield? impl "panic").isSome || (jfield? impl "nil").isSome then
+      emit case false false "route.error" "strategy-error" s!"factory error / panic / nil decision: {impl.compress}"
+    else
+    let oc := parseOutcome (jget j "outcome")
+    let listers := jnatList (jget j "listers")
+    let o := parseObs impl
+    let foreign := (jintList (jget impl "eps")).any (· < 0)
+    let m := route active typ fb rom oc healthy listers
+    let mo := Obs.ofRouted m
+    let agree := o == mo && jbool (jget impl "err") == m.err && jstr (jget impl "name") == factoryName typ &&
+      jbool (jget impl "refreshed") == refreshes typ rom healthy listers && !foreign
+    let v := if foreign then some "returned-endpoint-not-in-input" else routeViolation typ fb rom oc healthy listers o
+    match v with
+    | none => emit case agree true (branchOf typ fb mo) "" "" (obsJson mo m.err)
+    | some sig =>
+      emit case agree false (branchOf typ fb mo) (refineRoute sig typ oc listers o)
+        s!"{typ}/{fb} refresh_on_miss={rom} healthy={healthy} listers={listers}: returned {o.eps} action={o.action} reason={o.reason} status={o.status} ({sig})"
+        (obsJson mo m.err)
+  | "reg" =>
+    let listings := parseListings (jget j "listings")
+    let model := jstr (jget j "model")
+    let lookup := jnatList (jget impl "lookup")
+    let lo := listersLower listings model
+    let up := listersUpper listings model
+    let o := parseObs impl
+    -- the strategy composed with the registry's own lookup must be the decision table on that lookup
+    let m := route active typ fb rom (.ok healthy) healthy lookup
+    let mo := Obs.ofRouted m
+    let agree := o == mo && jbool (jget impl "err") == m.err
+    let bracket := lo.all (fun e => lookup.contains e) && lookup.all (fun e => up.contains e)
+    let v := if !bracket then some "lookup-outside-listings" else routeViolation typ fb rom (.ok healthy) healthy lookup o
+    let branch := "reg." ++ (if lo.isEmpty && !up.isEmpty then "alias-or-case" else if up.isEmpty then "unknown" else "native") ++ "/" ++ mo.action
+    match v with
+    | none => emit case agree true branch "" "" (obsJson mo m.err)
+    | some sig =>
+      emit case agree false branch (refineRoute sig typ (.ok healthy) lookup o)
+        s!"{typ}/{fb} model={model} listed-exactly-by={lo} possibly-by={up} registry lookup={lookup} healthy={healthy}: returned {o.eps} action={o.action} status={o.status} ({sig})"
+        (obsJson mo m.err)
+  | "http" =>
+    if (jfield? impl "start_error").isSome then
+      emit case false true "http.start-error" "" s!"stack did not start: {impl.compress}"
+    else
+    let listings := parseListings (jget j "listings")
+    let model := jstr (jget j "model")
+    let lo := listersLower listings model
+    let up := listersUpper listings model
+    let routeName := jstr (jget j "route")
+    let h : Handler := if routeName == "provider" then .provider else .proxy
+    let bk := jint (jget impl "backend")
+    let o := parseHttpObs impl
+    -- model: the registry resolves either the exact listers or the alias/case listers; accept either
+    let agreeWith := fun (ls : List Ep) =>
+      let out := Olla.Model.Routing.handle active h typ fb rom healthy ls
+      (if out.forwardTo.isEmpty then o.backend.isNone && o.status == out.status && o.hDecision.isNone && o.hStrategy.isNone
+       else (match o.backend with | some e => out.forwardTo.contains e | none => false) && o.status == 200 &&
+         o.hStrategy == (out.headers.find? (fun p => p.1 == headerStrategy)).map (·.2) &&
+         o.hDecision == (out.headers.find? (fun p => p.1 == headerDecision)).map (·.2) &&
+         o.hReason == (out.headers.find? (fun p => p.1 == headerReason)).map (·.2))
+    let agree := jstr (jget impl "err") == "" && jnat (jget impl "backend_requests") ≤ 1 && (agreeWith lo || agreeWith up)
+    let out := Olla.Model.Routing.handle active h typ fb rom healthy up
+    let branch := s!"http.{routeName}/{factoryName typ}/{fb}/" ++
+      (if out.forwardTo.isEmpty then s!"reject{out.status}" else "forward")
+    let mj := Json.mkObj [("forwardTo", toJson out.forwardTo), ("status", toJson out.status)]
+    match httpViolation2 typ fb rom healthy lo up o with
+    | none => emit case agree true branch "" "" mj
+    | some sig =>
+      let sig' :=
+        if sig == "reject-status-wrong" && o.backend.isNone && (o.status == 502 || (h == .provider && o.status == 404)) then
+          "handler-drops-routing-status"
+        else if sig == "reject-status-wrong" && factoryName typ == strategyDiscovery && up.isEmpty && o.status == 503 then
+          "discovery-503-for-unlisted-model"
+        else if sig == "fallback-all-not-healthy-set" && o.backend.isNone then "configured-strategy-ignored"
+        else sig
+      emit case agree false branch sig'
+        s!"{routeName} handler, configured {typ}/{fb} refresh_on_miss={rom}, model={model} listed-by={up} healthy={healthy}: client status {o.status}, backend {bk}, X-Olla-Routing-Strategy={o.hStrategy} Decision={o.hDecision} ({sig})"
+        mj
+  | _ => emit case false true "unknown-kind" "" s!"unknown kind {kind}"
+
+def main : IO Unit := do forLines (← IO.getStdin) handle
 
 end Olla.Driver.C09
